@@ -2,7 +2,7 @@ import UralModel.Model.FingerprintUrlExcept
 import UralModel.Props.C05Total
 import UralModel.Props.C07Whole
 /-!
-# `fingerprint_url` is total: an URL the parser refuses comes back lower-cased (FX-C07-FPTOTAL)
+# `fingerprint_url` is total: an URL the parser refuses comes back lower-cased (FX-C07-c806a8b)
 
 Until the fix `fingerprint_url` unpacked whatever `normalize_url(…, unsplit=False)` returned; for an
 unparseable URL that is the *string* (`url.lower()`): `ValueError: too many values to unpack`, or
